@@ -271,18 +271,24 @@ Section Machine.
         | ILess sl n =>
             match nth_error stk (base + sl) with
             | Some (VNum i) => inl (mkS g (S pc) (stk ++ [VBool (i <? n)]) frs hs rp he out)
-            | _ => stuck st
+            | Some v => (* binary_op: TypeError "Binary operands must both be numbers." *)
+                unwind (mkS g (S pc) (stk ++ [v; VNum n; VErr]) frs hs rp he out)
+            | None => stuck st
             end
         | IEq sl k =>
             match nth_error stk (base + sl) with
             | Some (VNum i) => inl (mkS g (S pc) (stk ++ [VBool (i =? k)]) frs hs rp he out)
-            | _ => stuck st
+            | Some _ => (* Equal never fails: values of different kinds are not equal *)
+                inl (mkS g (S pc) (stk ++ [VBool false]) frs hs rp he out)
+            | None => stuck st
             end
         | IIncr sl =>
             match nth_error stk (base + sl) with
             | Some (VNum i) =>
                 inl (mkS g (S pc) (firstn (base + sl) stk ++ VNum (S i) :: skipn (S (base + sl)) stk) frs hs rp he out)
-            | _ => stuck st
+            | Some v => (* Add: TypeError "Binary operands must be two numbers or two strings." *)
+                unwind (mkS g (S pc) (stk ++ [v; VNum 1; VErr]) frs hs rp he out)
+            | None => stuck st
             end
         | IJump t => inl (mkS g t stk frs hs rp he out)
         | ILoop t => inl (mkS g t stk frs hs rp he out)
